@@ -79,7 +79,7 @@ func newBody(r *rand.Rand, old string, headers []string) (string, string) {
 // in place (independent reader vs model after every rewrite, backdated mtimes for
 // "no write at all"), and a following read-only run passes without writing.
 func checkC04(c *vkit.Ctx) {
-	c.P.Rule = "case = recorded directory (generated history: 1-6 tests, up to 14 entries each, MatchSnapshot/JSON/YAML entries over 1-3 files plus standalone and standalone-JSON files; some files carry 30-330 entries of other tests before the program's and 30-150 after them, so entries sit at arbitrary offsets of files of several KiB; half of the histories go through one Config object per option set) then an update run in which a random subset S of calls changes value (shorter, longer, empty, multi-line, terminator-like, header-like, 1 MB <-> 1 B) with updating enabled in one of four ways, then a read-only run (Update(false) or CI) with the new values; non-trivial = |S| >= 1 and some rewritten multi-entry file holds >= 2 entries; distinct by hash(history, S, mode)"
+	c.P.Rule = "(in every 5th case the JSON format option of all Configs changes between the recording and the update run: same documents, other formatted values) case = recorded directory (generated history: 1-6 tests, up to 14 entries each, MatchSnapshot/JSON/YAML entries over 1-3 files plus standalone and standalone-JSON files; some files carry 30-330 entries of other tests before the program's and 30-150 after them, so entries sit at arbitrary offsets of files of several KiB; half of the histories go through one Config object per option set) then an update run in which a random subset S of calls changes value (shorter, longer, empty, multi-line, terminator-like, header-like, 1 MB <-> 1 B) with updating enabled in one of four ways, then a read-only run (Update(false) or CI) with the new values; non-trivial = |S| >= 1 and some rewritten multi-entry file holds >= 2 entries; distinct by hash(history, S, mode)"
 	c.P.Assumptions = []string{"VerifResetProcessState simulates a new process", "mtime backdating: a file whose mtime is still 2001-02-03 and whose inode is unchanged was not written"}
 	modes := onModes()
 	n := c.N(1500, 40000)
